@@ -184,6 +184,14 @@ def stale_state(ck, P):
     from . import c14
     W = writes("K1")
     c14.reset_cover(ck, P, W, Z + "deflate::reset", Z + "deflate::State", c14.DEFLATE_CONFIG, c14.DEFLATE_DEAD, {}, "deflate::reset", floor_written=28)
+    fnr = P.fn(Z + "deflate::reset")
+    if fnr is not None:
+        must = W.must(fnr)
+        wr = {p[1:] for q, p in must if q == 1 and p[:1] == ("state",)}
+        for c_ in c14.DEFLATE_CONTENTS:
+            ck.decide(c_ in wr, "FIELD/reset-contents", "deflate::State." + ".".join(c_), "buffer contents cleared on every reset path",
+                      "buffer contents are no longer cleared on every path of deflate::reset (stale hash heads / symbol bytes survive and "
+                      "steer what the next stream emits)", __import__("rules.core", fromlist=["where"]).where(fnr))
     c14.reset_cover(ck, P, W, Z + "inflate::reset_with_config", Z + "inflate::State", c14.INFLATE_CONFIG, c14.INFLATE_DEAD, c14.INFLATE_PERCALL,
                     "inflate::reset_with_config", floor_written=18)
 
